@@ -1254,7 +1254,8 @@ func (x *Exec) callWritesGhost(fr *Frame, c *ast.CallExpr) (all bool, names []st
 			"io.Closer.Close":                      {"bodypending"},
 			"crypto/tls.Server":                    {"connreader"},
 			"os.":                                  {"fsinode", "isize", "icontent", "handleinode"},
-			"io.Copy":                              {"isize", "icontent"},
+			"io.Copy":                              {"isize", "icontent", "httpstatus", "httpwrites", "wbody"},
+			"net/http.Response.Write":              {"httpstatus", "httpwrites", "wbody", "wlen", "whdr"},
 			"golang.org/x/sync/singleflight.":      {"sfleader", "sfshared", "sferrs"},
 			"time.NewTicker":                       {"tickerival"},
 			"time.Ticker.":                         {"tickerival"},
